@@ -203,6 +203,7 @@ func checkC14(c *Ctx) {
 	enumTable(c, "C14.R5", r.Pkg, "toStringSpecChangeCode", "SpecChangeCode", true)
 	enumTable(c, "C14.R5", r.Pkg, "toLongStringSpecChangeCode", "SpecChangeCode", true)
 	checkSections(c, "C14.R4.report-sections", pk)
+	checkMirrorElse(c, "C14.R3.mirror-else", pk)
 
 	c.Rule("C14.R1.orientation", "directed code ⇒ directed trigger of matching orientation; no opposite-orientation trigger; direction-less code ⇒ no one-sided selection", 55)
 	c.Rule("C14.R1.sense", "Widened/Narrowed agree with the attribute's sense (upper bound ↑ = widened, lower bound ↑ = narrowed, exclusive removed = widened, string→non-string = narrowed, number wideness ↑ = widened)", 12)
@@ -1262,5 +1263,52 @@ func checkSharedGuards(c *Ctx, rule string, r *goan.Rel, sites []boundSite) {
 				fmt.Sprintf("the condition `%s` guards the emission of %s, but %s: the change is looked for when one spec has the attribute and not when only the other has it", goan.ExprString(ifs.Cond), pair, bad))
 			return true
 		})
+	}
+}
+
+// checkMirrorElse: where one branch of an if/else reports DeletedConstraint and the other AddedConstraint
+// (a constraint present in one spec only), the second is the plain `else` of the first: a further
+// condition on it ("a lower bound of 0 constrains nothing") makes A→B silent while B→A still reports.
+func checkMirrorElse(c *Ctx, rule string, pk *packages.Package) {
+	c.Rule(rule, "a DeletedConstraint / AddedConstraint pair emitted by the two branches of one `if` has no further condition on either branch (plain else)", 2)
+	emits := func(n ast.Node, code string) bool {
+		found := false
+		ast.Inspect(n, func(m ast.Node) bool {
+			if kv, ok := m.(*ast.KeyValueExpr); ok && goan.IsIdent(kv.Key, "Change") && goan.IsIdent(kv.Value, code) {
+				found = true
+			}
+			return true
+		})
+		return found
+	}
+	n := 0
+	for _, fd := range load.AllFuncs(pk) {
+		if fd.Body == nil {
+			continue
+		}
+		fd := fd
+		ast.Inspect(fd.Body, func(m ast.Node) bool {
+			ifs, ok := m.(*ast.IfStmt)
+			if !ok || ifs.Else == nil {
+				return true
+			}
+			for _, pair := range [][2]string{{"DeletedConstraint", "AddedConstraint"}, {"AddedConstraint", "DeletedConstraint"}} {
+				if emits(ifs.Body, pair[0]) && !emits(ifs.Body, pair[1]) && emits(ifs.Else, pair[1]) && !emits(ifs.Else, pair[0]) {
+					n++
+					_, plain := ifs.Else.(*ast.BlockStmt)
+					key := "diff." + load.FuncName(fd) + " › " + pair[0] + " / " + pair[1] + " under `" + goan.ExprString(ifs.Cond) + "`"
+					cond := ""
+					if ei, ok := ifs.Else.(*ast.IfStmt); ok {
+						cond = goan.ExprString(ei.Cond)
+					}
+					c.Check(plain, rule, key, c.posOf(pk, ifs.Pos()), "plain else",
+						pair[1]+" is reported only under the further condition `"+cond+"`: a constraint present in one spec only is reported in one direction and passed over in the other, so the report of B→A is not the mirror of A→B")
+				}
+			}
+			return true
+		})
+	}
+	if n == 0 {
+		c.Anchor(rule, "diff › DeletedConstraint/AddedConstraint branch pairs", "not found")
 	}
 }
